@@ -133,6 +133,12 @@ func c10Specs() []gram.Named {
 	pnum.Prec = []gram.PrecLevel{{Assoc: "left", Toks: []string{"TM", "TP"}, Nums: []int{301, 0}}, {Assoc: "right", Toks: []string{"TQ"}, Nums: []int{400}}}
 	out = append(out, gram.Named{Name: "numbers-on-precedence-lines", Spec: pnum})
 
+	// numbers written with leading zeros are decimal all the same (a padded column of numbers)
+	pad := gram.Parse("E", nil, "E: E TM E | E TP E | TN TH")
+	pad.Tokens = []gram.TokDecl{{Name: "TN", Num: 300, NumText: "0300"}, {Name: "TH", Num: 99, NumText: "0099"}, {Name: "TM", NoTokenLine: true}, {Name: "TP", NoTokenLine: true}}
+	pad.Prec = []gram.PrecLevel{{Assoc: "left", Toks: []string{"TM", "TP"}, Nums: []int{301, 308}, NumTexts: []string{"0301", "0308"}}}
+	out = append(out, gram.Named{Name: "numbers-with-leading-zeros", Spec: pad})
+
 	// aliases written on precedence lines, with and without a number before them: the rest of the line counts
 	pal := gram.Parse("E", nil, "E: E TM E | E TP E | E TQ E | E TR E | TN")
 	pal.Tokens = []gram.TokDecl{{Name: "TN"}, {Name: "TM"}, {Name: "TP", NoTokenLine: true}, {Name: "TQ", NoTokenLine: true}, {Name: "TR"}}
